@@ -229,6 +229,7 @@ type calleeInfo struct {
 	resNames []string
 	pkg      *types.Package
 	closure  ssa.Value // the MakeClosure value when a closure is called / spawned
+	unwrap   types.Type // impl directive: the concrete receiver type the interface value is assumed to hold
 }
 
 func (ex *Exec) doCall(c *ssa.CallCommon, instr ssa.Instruction, pos token.Pos) Val {
@@ -279,6 +280,9 @@ func (ex *Exec) callWith(c *ssa.CallCommon, instr ssa.Instruction, pos token.Pos
 	if c.IsInvoke() {
 		if spec.Attrs["maypanic"] != "true" {
 			ex.panicCheck("nil", Neq(args[0].T, IntLit(0)), pos, "method call on nil interface "+describe(c.Value))
+		}
+		if info.unwrap != nil {
+			args = append([]Val{ex.unwrapIface(args[0], info.unwrap)}, args[1:]...)
 		}
 	} else if c.StaticCallee() == nil {
 		fv := ex.val(c.Value)
@@ -524,6 +528,8 @@ func (ex *Exec) applyContract(spec *FuncSpec, info calleeInfo, c *ssa.CallCommon
 		if !spec.Trusted {
 			if fn := c.StaticCallee(); fn != nil && !c.IsInvoke() {
 				as = ex.V.mayAlloc(fn)
+			} else if info.unwrap != nil && info.fn != nil {
+				as = ex.V.mayAlloc(info.fn)
 			}
 		}
 		noTags := spec.Trusted || (as != nil && !as.unknown && len(as.tags) == 0)
@@ -1198,4 +1204,17 @@ func (ex *Exec) checkPost(res []Val, pos token.Pos) {
 		Name: fmt.Sprintf("%s/cover:ret%d", ex.fnKey(), ex.returns), Tags: ex.spec.Props, Func: ex.fnKey(), Kind: "cover",
 		Pos: ex.posOf(pos), Text: "return reachable under the precondition", NAxioms: len(ex.axioms), Path: ex.pc, Goal: False, ex: ex, IsCover: true,
 	})
+}
+
+// unwrapIface: the pointer held by an interface value whose dynamic type is
+// assumed (impl directive) to be the pointer type t. unwrap.T is the inverse
+// of the injection iface.T that MakeInterface applies.
+func (ex *Exec) unwrapIface(v Val, t types.Type) Val {
+	key := sanitize(typeKey(t))
+	p := ex.D.Fn("unwrap."+key, SInt, v.T)
+	ex.assume(Imp(Neq(v.T, IntLit(0)), And(Gt(p, IntLit(0)), Eq(ex.D.Fn("iface."+key, SInt, p), v.T))))
+	ex.assume(Imp(Eq(v.T, IntLit(0)), Eq(p, IntLit(0))))
+	ex.assumeAllocated(p, t, ex.cur)
+	ex.typedRef(p, t, ex.cur)
+	return Val{T: p, Ty: t}
 }
